@@ -288,7 +288,10 @@ fn ldh_word(rng: &mut Rng, maxlen: usize) -> Vec<u8> {
     let n = if rng.chance(1, 30) { maxlen } else { rng.urange(1, maxlen.min(8)) };
     let mut v = Vec::with_capacity(n);
     for i in 0..n {
-        if i > 0 && i + 1 < n && rng.chance(1, 10) {
+        // hyphens anywhere but first, also last and doubled (`web-`, `a--b`): the master-file syntax has no
+        // hostname (LDH) rule. A LEADING hyphen is not generated: hickory's text parser refuses it by design
+        // ("Malformed label"), and the statement's name forms do not settle whether it must load (don't-care).
+        if i > 0 && rng.chance(1, 10) {
             v.push(b'-');
         } else if rng.chance(1, 6) {
             v.push(*rng.pick(b"0123456789"));
